@@ -47,7 +47,7 @@ def mk_graph_project(rng, depth=None):
             a = {"x": "{{ y }}", "y": "unused"}
         elif r == 3 and kind in ("range", "plural"):
             # literal counts sit on and next to every bound of the target's branches (RANGE_SHAPES)
-            a = {"count": rng.pick(RANGE_SHAPES[shape][2] if kind == "range" else [0, 1, 2, 5, 21])}
+            a = {"count": rng.pick(RANGE_SHAPES[shape][2] if kind == "range" else [0, 1, 2, 5, 21, -1, -2, -21, 1.5, -1.5, 3])}      # negative counts: the category is the one of the absolute value (ICU operands)
         elif r == 4 and kind in ("range", "plural"):
             a = {"count": rng.pick(["{{ n }}", " {{ total }} "])}
         elif r == 5 and rng.chance(1, 2):
@@ -442,7 +442,7 @@ def make_oracle(binp):
             CNT = {"var_count": 3, "var_n": 5, "var_total": 1}      # distinct per count variable: a renamed count must stay renamed
             cat_tbl = {}
             for (ll, rule, key), f in cats.items():
-                if ll == l and key[:2] in ("u:", "f:"):
+                if ll == l and key[:2] in ("u:", "f:", "i:"):
                     cat_tbl[(rule, Fraction(key[2:]))] = f
             base = Env(vars={k: str(v) for k, v in CNT.items()}, var_fmt=False, counts=CNT, count_default=2, cats=cat_tbl)
             base.side_text = f"SIDE-{l}"
